@@ -93,6 +93,7 @@ class Scripted:
             raise CapHit()
         data = Path(self.path).read_bytes()
         ans = self.verdict(self.k, data)
+        prefix = os.path.abspath(prefix)
         pnum = prefix[len(self.tmp) + 1:] if prefix.startswith(self.tmp + os.sep) else "?" + prefix
         self.events.append(f"T {self.k} {pnum} {hx(data)} {ans}")
         self.seen.append((self.k, data, ans))
@@ -198,7 +199,7 @@ class Run:
 
 
 def impl_run(strategy, cfg, tc, file0, verdict, clock=(), exc_class=TestRaised, atom="line",
-             cap=5000, load=False, ext=".txt", watchdog=60.0):
+             cap=5000, load=False, ext=".txt", watchdog=60.0, auto_tmp=False):
     """tc = (before, parts, reducible, after) placed directly into a testcase object, or (when
     load=True) ignored in favour of Testcase.load(file0).  verdict: str or callable(k, data)."""
     import lithium.strategies as st
@@ -211,8 +212,11 @@ def impl_run(strategy, cfg, tc, file0, verdict, clock=(), exc_class=TestRaised, 
     res = Run()
     try:
         path = os.path.join(work, "t" + ext)
-        tmp = os.path.join(work, "tmp")
-        os.mkdir(tmp)
+        # auto_tmp: no directory is chosen in advance; Lithium.run creates ./tmp1 itself (the way the command line
+        # works without --tempdir), with the scratch directory as the current directory
+        tmp = os.path.join(work, "tmp1" if auto_tmp else "tmp")
+        if not auto_tmp:
+            os.mkdir(tmp)
         Path(path).write_bytes(file0)
         atom_name = atom.split(":")[0]
         testcase = getattr(tcs, ATOMS[atom_name])()
@@ -234,7 +238,8 @@ def impl_run(strategy, cfg, tc, file0, verdict, clock=(), exc_class=TestRaised, 
         lith.testcase = testcase
         lith.condition_script = script
         lith.condition_args = ["arg0", path]
-        lith.temp_dir = Path(tmp)
+        if not auto_tmp:
+            lith.temp_dir = Path(tmp)
         timeline = []
         clk = Clock(clock, timeline)
         script.timeline = timeline
@@ -261,12 +266,16 @@ def impl_run(strategy, cfg, tc, file0, verdict, clock=(), exc_class=TestRaised, 
         import signal
         old_handler = signal.signal(signal.SIGALRM, _on_alarm)
         signal.setitimer(signal.ITIMER_REAL, watchdog)
+        old_cwd = os.getcwd()
         try:
             try:
+                if auto_tmp:
+                    os.chdir(work)
                 rc = lith.run()
             finally:
                 signal.setitimer(signal.ITIMER_REAL, 0)
                 signal.signal(signal.SIGALRM, old_handler)
+                os.chdir(old_cwd)
             res.rc = rc
             tail = f"rc={rc}"
         except CapHit:
